@@ -345,12 +345,12 @@ impl ParserListener for Screen {
                     continue;
                 }
                 let char = line.entry(x).or_insert(default_char.clone()).data.clone();
+                // An orphaned placeholder (its wide character was overwritten)
+                // holds an empty string and renders as nothing.
                 is_wide_char = char
                     .chars()
                     .next()
-                    .expect("can not read char")
-                    .width()
-                    .is_some_and(|s| s == 2);
+                    .is_some_and(|c| c.width().is_some_and(|s| s == 2));
                 result.push_str(&char);
             }
 
